@@ -20,7 +20,7 @@ def nnull(v):
     return ("na", 0) if v[0] in ("na", "nan") else norm(v)
 
 
-def against(exp: Dict[str, Any], o: Dict[str, Any], backend: str) -> List[str]:
+def against(exp: Dict[str, Any], o: Dict[str, Any], backend: str, nocols: bool = False) -> List[str]:
     out: List[str] = []
     ek = "ok" if exp["kind"] == "ok" else "raises"
     if o["kind"] != ek:
@@ -28,6 +28,9 @@ def against(exp: Dict[str, Any], o: Dict[str, Any], backend: str) -> List[str]:
         return out
     if ek == "ok":
         a, b = exp["returned"], o["returned"]
+        if backend == "polars" and nocols:
+            # a polars frame without columns has no rows: the harness cannot build the 2-row input; verdict only
+            return out
         la = [(norm(c["name"]), [nnull(x) for x in c["cells"]]) for c in a["cols"]]
         lb = [(norm(c["name"]), [nnull(x) for x in c["cells"]]) for c in b["cols"]]
         if la != lb:
@@ -66,22 +69,33 @@ def compare(vec: Dict[str, Any], obs: Dict[str, Any]) -> Outcome:
         oc.known = list(vec["pandas_devs"])
         pdm = []
     oc.mismatches += pdm
-    pm = against(exp, obs["polars"], "polars")
+    nocols = not vec["data"]["cols"]
+    pm = against(exp, obs["polars"], "polars", nocols)
     if pm == ["KNOWN:PolarsRegexFailureNamesPattern"]:
         oc.known = oc.known + ["PolarsRegexFailureNamesPattern"]
         pm = []
     devs = vec.get("polars_devs") or []
     if pm and devs:
-        exact = {"PolarsUniqueReportsAllMembers", "PolarsStrMatchesTopLevelAlt", "PolarsRegexNoMatchAccepted"}
-        if set(devs) <= exact:
-            # value-level deviations have an exact alternative prediction
-            if against(vec["polars_asis"], obs["polars"], "polars") in ([], ["KNOWN:PolarsRegexFailureNamesPattern"]):
-                oc.known = oc.known + list(devs)
-                pm = []
-        else:
-            # container-level deviations of the polars back end: identified by the inputs they apply to
-            oc.known = oc.known + ([d for d in devs if d not in exact] or list(devs))
+        # every deviation of the polars back end has an exact alternative prediction:
+        #   PolarsMissingColumnLeak           an internal exception escapes (nothing else to compare)
+        #   PolarsAddMissingDropsUndeclared   the prediction without the undeclared columns
+        #   the others                        polars_asis (the schema polars actually evaluates)
+        if "PolarsMissingColumnLeak" in devs and obs["polars"]["kind"].startswith("Leak"):
+            oc.known = oc.known + ["PolarsMissingColumnLeak"]
             pm = []
+        elif ("PolarsAddMissingDropsUndeclared" in devs and vec["schema"]["strict"] == "filter"
+              and obs["polars"]["kind"] == "Leak:ColumnNotFoundError"):
+            # the undeclared column was already dropped by add_missing_columns when strict='filter' drops it again
+            oc.known = oc.known + ["PolarsAddMissingDropsUndeclared"]
+            pm = []
+        else:
+            alt = vec["polars_asis"]
+            drops = [norm(x) for x in (vec.get("polars_drops") or [])]
+            if drops and alt["kind"] == "ok":
+                alt = dict(alt, returned=dict(alt["returned"], cols=[c for c in alt["returned"]["cols"] if norm(c["name"]) not in drops]))
+            if against(alt, obs["polars"], "polars", nocols) in ([], ["KNOWN:PolarsRegexFailureNamesPattern"]):
+                oc.known = oc.known + [d for d in devs if d != "PolarsMissingColumnLeak"]
+                pm = []
     oc.mismatches += pm
     # direct disagreement between the back ends (reported even where both miss the prediction the same way)
     p, q = obs["pandas"], obs["polars"]
@@ -102,6 +116,6 @@ PROP = Prop(
           "one meaning for it, so agreement is by construction at the specification level. Every vector is concretized twice "
           "and replayed with lazy=True on pandas and on polars; each must match the single prediction on verdict, failing "
           "cells (column, row position, reason) and parsed table up to the null representation - hence they match each other."),
-    assumptions=["default RangeIndex (row label = position)", "polars null and NaN are both read as 'missing' when comparing parsed tables"],
+    assumptions=["default RangeIndex (row label = position)", "a frame without columns has no rows on polars: for such inputs only the verdict is compared", "polars null and NaN are both read as 'missing' when comparing parsed tables"],
     invariants=["ParsePostcondition", "one Sat / one Run for both back ends"],
 )
